@@ -446,8 +446,7 @@ class ttensor:
         # NOTE: MATLAB version calculates an unused R here
 
         W = [np.empty((), order=self.order)] * self.ndims
-        if isinstance(U, ttb.ktensor):
-            U = U.factor_matrices
+        U = ttb_utils.get_mttkrp_factors(U, n, self.ndims)
         for i in range(0, self.ndims):
             if i == n:
                 continue
